@@ -53,6 +53,18 @@ CHECKS = {
             "Observation events (every derived view of an obtained value; ==, partial_cmp, cmp, hash of pairs of obtained values, each next "
             "to the inner values' own answers) are validated by TLC against the Transparent statement of the specification.",
             "6 C13"),
+    "C12": ("float finite => lawful Eq / total Ord",
+            "TLC checks on the abstract float line that no creating action of a declaration with `finite` wraps NaN or an infinity; the real "
+            "code of f32/f64 declarations deriving Eq/Ord is driven through every entry point with NaN payloads, infinities, signed zeros, "
+            "subnormals and extremes, and TLC validates every outcome, every ==/partial_cmp/cmp answer on pair grids against the rank order, "
+            "and slice::sort / BTreeSet / max results.",
+            "6 C12"),
+    "C16": ("error messages state the violated rule truthfully",
+            "TLC model-checks the transcribed message table against the literal meaning of the stated relation in the cells below/at/above "
+            "the bound (the untruthful pairs it finds are the candidates); the real Display texts, read with a fixed phrase table, are validated "
+            "by TLC (Trace_Msg) against the real constructor's verdicts in the three cells, plus naming of type and bound and embedding in the "
+            "FromStr and serde errors. The free-text half (phrase table) is the weak part: unrecognised phrases are inconclusive.",
+            "6 C16"),
 }
 
 
